@@ -4078,6 +4078,12 @@ def _unreturn(t):
         return res
     if t[0] == "seq":
         return ("seq", t[1], _unreturn(t[2]))
+    if t[0] == "if" and (_has_ret(t[2]) or _has_ret(t[3])):
+        a, b = _unreturn(t[2]), _unreturn(t[3])           # the branches of a conditional in result position are in result position
+        if a is not t[2] or b is not t[3]:
+            return _mk_if(t[1], a, b)
+    if t[0] == "match" and any(_has_ret(b) for _p, _g, b in t[2]):
+        return ("match", t[1], [(p, g, _unreturn(b)) for p, g, b in t[2]])
     return t
 
 
